@@ -1,4 +1,5 @@
 """C19 - the fill step transmits values faithfully and files exactly the right forms.  DESIGN.md 4 / C19."""
+import configparser
 import os
 
 from .. import core, crash, gen, pipeline, shipped, simrun, synth
@@ -82,12 +83,14 @@ def limits_for(case, kind):
                 if ent:
                     d[m_['pdf_name']] = ent
             out[fs['name']] = d
+        out['__mapping__'] = {fs['name']: {m_['pdf_name']: m_['line'] for m_ in fs.get('pdf', [])} for fs in case['world']['forms']}
         return out
     y = case['persona']['year']
     if y not in _pinned:
         import json
         with open(os.path.join(core.VERIF, 'catalogues', f'pdf_limits_{y}.json')) as f:
-            _pinned[y] = json.load(f)['limits']
+            d = json.load(f)
+            _pinned[y] = dict(d['limits'], __mapping__=d['mapping'])
     return _pinned[y]
 
 
@@ -106,6 +109,21 @@ def evaluate(case, engine, acc=None, want='C19', keep_old_solution=False):
     year, year_forms, by_name = year_forms_for(case, kind)
     info = {}
     res = None
+    if want == 'C14' and kind == 'shipped' and run.outcome in ('solved', 'failed') and run.rec.solvers:
+        # the forms that worked the return out are the ones of the year the solution is labelled with
+        label = None
+        try:
+            cfg_ = configparser.ConfigParser()
+            cfg_.read_string(run.solution_file or '')
+            label = cfg_.getint('habutax', 'tax_year') if cfg_.has_option('habutax', 'tax_year') else None
+        except (configparser.Error, ValueError):
+            pass
+        if label is not None and label in shipped.hb_forms.available_forms:
+            ok_classes = set(shipped.hb_forms.available_forms[label])
+            alien = sorted(fo.name() for fo in run.rec.solvers[-1].forms.values() if type(fo) not in ok_classes)
+            if alien:
+                fs.append(F('C14', 'C14.year', 'solved-with-other-years-forms',
+                            f'the solution says tax_year {label}, but forms {alien[:4]} that worked it out are not from the {label} catalogue'))
     if run.outcome == 'solved' and run.solution_file:
         text = pipeline.relayout(run.solution_file, case['pipe'].get('relayout'))
         res = pipeline.fill(text, year_forms, flatten=case['pipe']['flatten'])
@@ -162,7 +180,14 @@ def evaluate(case, engine, acc=None, want='C19', keep_old_solution=False):
     return fs
 
 
-def make_case(engine, seed, tight=None):
+import locale as _locale
+UTF8 = _locale.getpreferredencoding(False).lower().replace('-', '') == 'utf8'
+# text that is not in Unicode normal form C (decomposed accents, compatibility characters, conjoining jamo): it has to come
+# back as the very code points that went in
+NOT_NFC = ['Jose\u0301 Nu\u0303ez', 'A\u030angstro\u0308m', '\u212b unit', '\u1100\u1161\u11a8', 'e\u0301', 'Zoe\u0308 \u2126']
+
+
+def make_case(engine, seed, tight=None, unicode=False):
     rng = core.Rng(core.h64('c19', seed))
     if engine.startswith('synth'):
         case = gen.gen_case(seed, force_faults=rng.pick([[], [], ['none'], ['blank']]))
@@ -174,6 +199,8 @@ def make_case(engine, seed, tight=None):
             spec = simrun.input_spec_of(case['world'], n)
             if spec and spec['type'] == 'str' and rng.chance(0.6):
                 t = rng.pick(PERCENT) if rng.chance(0.12) else rng.pick(ADVERSARIAL)
+                if unicode and UTF8 and rng.chance(0.15):
+                    t = rng.pick(NOT_NFC)
                 case['persona'][n] = {'text': t, 'typed': ['s', t.strip()], 'invalid': False}
                 if '%' in t and n not in case['file']:
                     case['file'].append(n)      # given in the file (written %% there), not typed at the prompt
@@ -188,10 +215,14 @@ def make_case(engine, seed, tight=None):
             spec = per.spec(q)
             if spec and spec['type'] == 'str' and rng.chance(0.4):
                 t = rng.pick(PERCENT) if rng.chance(0.12) else rng.pick(ADVERSARIAL)
+                if unicode and UTF8 and rng.chance(0.15):
+                    t = rng.pick(NOT_NFC)
                 case['persona']['over'][q] = t
                 if '%' in t and q not in case['file']:
                     case['file'].append(q)
     case['pipe'] = {'flatten': rng.chance(0.7), 'relayout': rng.randrange(1 << 32) if rng.chance(0.4) else None}
+    if not engine.startswith('synth') and unicode and rng.chance(0.15):
+        case['stray_year'] = rng.pick([y for y in shipped.YEARS if y != case['persona']['year']])
     return case
 
 
